@@ -167,31 +167,71 @@ type replayCase struct {
 	Requester string          `json:"requester"`
 	Payload   string          `json:"payload_hex"`
 	History   []int           `json:"history,omitempty"`
+	// Channel the request arrives on: "" = the BungeeCord channel id of the requester's era, "other-era" =
+	// the other one of the two BungeeCord ids, anything else = that (foreign) channel name
+	Channel string `json:"channel,omitempty"`
 }
+
+// foreignChannels are NOT the BungeeCord channel: a message on them is no BungeeCord request at all.
+var foreignChannels = []string{"my:chan", "bungeecord:other", "BungeeCordX", "minecraft:register", ""}
 
 type fail struct{ key, desc string }
 
 // checkOne evaluates one (state, request) on the real responder against the reference.
 func checkOne(r *vrt.R, st *refbungee.State, requester string, req request, count bool) (fails []fail, want []refbungee.Effect, defined bool) {
+	return checkOneOn(r, st, requester, req, count, "")
+}
+
+// checkOneOn: chanSel selects the plugin channel the request arrives on (see replayCase.Channel). Velocity
+// accepts a request on either BungeeCord channel id whatever the backend's version (the RESPONSE channel
+// follows the connection); a message on any other channel is not a request: Process must report "not
+// mine" (false) and do nothing. A well-formed request is consumed (Process reports true): it is never
+// passed on to the client.
+func checkOneOn(r *vrt.R, st *refbungee.State, requester string, req request, count bool, chanSel string) (fails []fail, want []refbungee.Effect, defined bool) {
 	want, class, defined := refbungee.Eval(st, requester, req.Payload)
 	me := st.Players[0]
-	channel := refbungee.LegacyChannel
+	channel, other := refbungee.LegacyChannel, refbungee.ModernChannel
 	if me.Modern {
-		channel = refbungee.ModernChannel
+		channel, other = other, channel
+	}
+	foreign := false
+	switch chanSel {
+	case "":
+	case "other-era":
+		channel = other
+		class += "@other-era-channel"
+	default:
+		channel, foreign = chanSel, true
+		if chanSel == "<empty>" {
+			channel = ""
+		}
+		want, defined = nil, true
+		class = "foreign-channel[" + class + "]"
 	}
 	res := process(st, requester, channel, req.Payload)
 	if count {
 		r.Eval(1)
 		r.Class(class)
 	}
+	sc := scenario(class)
+	if foreign {
+		sc = "foreign-channel"
+	}
+	head := fmt.Sprintf("request %q (%s) on channel %q payload %s\nstate %s\n", req.Label, class, channel, hex.EncodeToString(req.Payload), describe(st))
 	if res.panicked {
-		return []fail{{scenario(class) + "/panic", fmt.Sprintf("request %q (%s) payload %s\nstate %s\npanic: %v", req.Label, class, hex.EncodeToString(req.Payload), describe(st), res.panicVal)}}, want, defined
+		return []fail{{sc + "/panic", head + fmt.Sprintf("panic: %v", res.panicVal)}}, want, defined
 	}
 	if !defined {
 		return nil, want, defined
 	}
 	for _, d := range compare(want, res.got) {
-		fails = append(fails, fail{scenario(class) + "/" + d.kind, fmt.Sprintf("request %q (%s) payload %s\nstate %s\n%s", req.Label, class, hex.EncodeToString(req.Payload), describe(st), d.desc)})
+		fails = append(fails, fail{sc + "/" + d.kind, head + d.desc})
+	}
+	if foreign && res.ret {
+		fails = append(fails, fail{sc + "/consumed", head + "Process returned true for a message that is not on the BungeeCord channel: the proxy would swallow it"})
+	}
+	if !foreign && !res.ret {
+		fails = append(fails, fail{sc + "/request-not-consumed", head + "Process returned false for a well-formed BungeeCord request: the proxy would pass it on to the client"})
 	}
 	return fails, want, defined
 }
@@ -208,6 +248,7 @@ func TestVerif(t *testing.T) {
 			nPlayers = 4
 		}
 		reqs := refbungee.Requests(r.Thorough(), true)
+		wellFormed := refbungee.Requests(r.Thorough(), false)
 		sts := refbungee.States(nPlayers)
 		// also: a proxy with a single player and a proxy where the requester is alone on its server
 		single := refbungee.State{Servers: baseServers(), Players: []refbungee.Player{playerDefs[0]}}
@@ -234,6 +275,31 @@ func TestVerif(t *testing.T) {
 				if defined && len(want) > 0 && sampled < 2 && si == r.Shard && strings.HasPrefix(req.Label, "Forward ALL") {
 					sampled++
 					r.Sample(map[string]any{"state": describe(st), "request": req.Label, "expected": refbungee.Canon(want)})
+				}
+			}
+			// channel dimension: every well-formed request once more on the other BungeeCord channel id, and (one
+			// request per argument class, all of them in the first / last / single-player state) on foreign channels
+			seenClass := map[string]bool{}
+			for _, req := range wellFormed {
+				viol := func(fs []fail, sel string) {
+					for _, f := range fs {
+						r.Violation(f.key, f.desc, replayCase{Mode: "enum", State: *st, Requester: st.Players[0].Name, Payload: hex.EncodeToString(req.Payload), Channel: sel})
+					}
+				}
+				fails, _, _ := checkOneOn(r, st, st.Players[0].Name, req, true, "other-era")
+				viol(fails, "other-era")
+				_, class, _ := refbungee.Eval(st, st.Players[0].Name, req.Payload)
+				if seenClass[class] && si != 0 && si < len(sts)-2 {
+					continue
+				}
+				seenClass[class] = true
+				for _, fc := range foreignChannels {
+					sel := fc
+					if sel == "" {
+						sel = "<empty>"
+					}
+					fails, _, _ := checkOneOn(r, st, st.Players[0].Name, req, true, sel)
+					viol(fails, sel)
 				}
 			}
 		}
@@ -330,7 +396,7 @@ func replay(r *vrt.R, rc *replayCase) {
 		}
 	default:
 		payload, _ := hex.DecodeString(rc.Payload)
-		fails, _, _ := checkOne(r, &rc.State, rc.Requester, request{Label: "replay", Payload: payload}, true)
+		fails, _, _ := checkOneOn(r, &rc.State, rc.Requester, request{Label: "replay", Payload: payload}, true, rc.Channel)
 		for _, f := range fails {
 			r.Violation(f.key, f.desc, rc)
 		}
